@@ -90,6 +90,7 @@ pub fn dbg(s: String) {
         g.push(s);
     }
 }
+pub static RUNTIME_PANIC: std::sync::Mutex<Option<String>> = std::sync::Mutex::new(None);
 pub fn bump(key: &str) {
     *EXTRA.lock().unwrap().entry(key.to_string()).or_insert(0) += 1;
 }
@@ -139,11 +140,28 @@ pub fn main(args: &[String]) -> i32 {
     if let Some(c) = params.get("pool_capacity").and_then(|v| v.as_u64()) {
         may::config().set_pool_capacity(c as usize);
     }
-    // silence panic messages of the code under test (panics are data)
-    if std::env::var("MV_VERBOSE").is_err() {
-        std::panic::set_hook(Box::new(|_| {}));
-    }
     let ctl = Ctrl::new();
+    // panics of the code under test are data.  A panic of an actor (thread or coroutine) is judged by the
+    // scenario; a panic on a runtime thread that is not inside a coroutine (a worker's event loop, the
+    // kernel side of a yield, the timer thread) leaves the runtime in an unknown state: record it and
+    // abort the execution
+    let verbose = std::env::var("MV_VERBOSE").is_ok();
+    let dflt_hook = std::panic::take_hook();
+    std::panic::set_hook(Box::new(move |info| {
+        if verbose {
+            dflt_hook(info);
+        }
+        if may::verif::cur_vid() == 0 && !crate::ctrl::is_actor_thread() && std::thread::current().name() != Some("main") {
+            let msg = info.payload().downcast_ref::<&str>().map(|s| s.to_string()).or_else(|| info.payload().downcast_ref::<String>().cloned()).unwrap_or_default();
+            let loc = info.location().map(|l| format!("{}:{}", l.file(), l.line())).unwrap_or_default();
+            let mut g = RUNTIME_PANIC.lock().unwrap_or_else(|p| p.into_inner());
+            if g.is_none() {
+                *g = Some(format!("a runtime thread panicked: '{msg}' at {loc}"));
+            }
+            drop(g);
+            ctl.abort_run();
+        }
+    }));
     // wake every worker once: a worker's first epoll_wait has no timeout, so a worker that never
     // received work would never poll (and never steal)
     for k in 0..workers {
@@ -170,6 +188,7 @@ pub fn main(args: &[String]) -> i32 {
 
     let out_path: Option<String> = arg(args, "--out").map(|s| s.to_string());
     let mut run_one = |chooser: &mut dyn Chooser, st: &mut Stats, label: &str| -> Outcome {
+        DBG.lock().unwrap().clear();
         let inst = builder(ctl, &params);
         let Instance { opts, actors, mut custom, check, mut unstick } = inst;
         eprintln!("RUN {label}");
@@ -194,6 +213,7 @@ pub fn main(args: &[String]) -> i32 {
         if st.distinct.insert(hash_sched(&out.schedule)) && switches(&out.schedule) >= 2 {
             st.nontrivial += 1;
         }
+        let rt_panic = RUNTIME_PANIC.lock().unwrap_or_else(|p| p.into_inner()).clone();
         let viol = match std::panic::catch_unwind(std::panic::AssertUnwindSafe(|| check(&out))) {
             Ok(v) => v,
             Err(e) => {
@@ -201,6 +221,10 @@ pub fn main(args: &[String]) -> i32 {
                 vec![Violation { kind: "panic".into(), detail: format!("the code under test panicked during the final check: {msg}") }]
             }
         };
+        let mut viol = viol;
+        if let Some(p) = rt_panic {
+            viol.insert(0, Violation { kind: "runtime_panic".into(), detail: p });
+        }
         for v in viol {
             let id = format!("{}_{}_{:016x}", scen_name, v.kind, hash_sched(&out.schedule));
             let path = format!("{replay_dir}/{id}.json");
